@@ -192,7 +192,9 @@ pub fn c09(rec: &mut Rec, lm: &Landmarks, rng: &mut Rng, thorough: bool) {
                 TimeScale::ET | TimeScale::TDB => (36_524, 43_200 * NS_S as i128),
                 _ => (0, 0),
             };
-            let tod: i128 = match k % 5 {
+            // (drawn, not derived from k: selectors that are all residues of k alias each other - `debug` was
+            // only ever printed for the last nanosecond of a day, `{:e}` only for whole seconds)
+            let tod: i128 = match rng.below(5) {
                 0 => 0,
                 1 => NS_DAY as i128 - 1,
                 2 => rng.below(NS_DAY) as i128,
@@ -202,7 +204,7 @@ pub fn c09(rec: &mut Rec, lm: &Landmarks, rng: &mut Rng, thorough: bool) {
             let v = ((z0 + doy - gday) as i128) * NS_DAY as i128 + tod - gtod;
             m.eload_dur(ts, ns_dur(v));
             m.fmt_epoch("display", ts);
-            let f = forms[k % forms.len()];
+            let f = *rng.pick(&forms);
             let dynamic = ts == TimeScale::ET || ts == TimeScale::TDB;
             match f {
                 "lowerexp" | "upperexp" => {
@@ -908,10 +910,15 @@ fn render_ev(m: &mut EM, fmt: &str, how: u8, off: Duration, to: TimeScale) -> Op
 }
 
 fn fmt_parse_ev(m: &mut EM, fmt: &str, s: &str) {
+    fmt_parse_off_ev(m, fmt, s, Duration::ZERO);
+}
+
+/// parse `s` with format `fmt`; `off` is the time zone offset `s` was rendered with (zero if none)
+fn fmt_parse_off_ev(m: &mut EM, fmt: &str, s: &str, off: Duration) {
     let o = s.to_string();
     let ff = fmt.to_string();
     let r = with_deadline(DEADLINE_S, move || Epoch::from_format_str(&o, &ff).map_err(|_| ()));
-    m.rec.ev("fmt_parse", format!("\"fmt\":{},\"s\":{},\"res\":{}", jstr(fmt), jstr(s), jparsed_epoch(&r)), true);
+    m.rec.ev("fmt_parse", format!("\"fmt\":{},\"s\":{},\"off\":{},\"res\":{}", jstr(fmt), jstr(s), jdur(off), jparsed_epoch(&r)), true);
 }
 
 pub fn c19(rec: &mut Rec, lm: &Landmarks, rng: &mut Rng, thorough: bool) {
@@ -1049,6 +1056,40 @@ pub fn c19(rec: &mut Rec, lm: &Landmarks, rng: &mut Rng, thorough: bool) {
             m.eload_dur(TimeScale::UTC, ns_dur(v));
             if let Some(s) = render_ev(&mut m, f, 0, Duration::ZERO, TimeScale::UTC) {
                 fmt_parse_ev(&mut m, f, &s);
+            }
+        }
+    }
+    // ... and with the offset token: rendered with a time zone (either sign, up to 23:59), parsed back to the epoch
+    let zoned: Vec<String> = {
+        let mut v = Vec::new();
+        for d in ["%Y-%m-%d", "%d %b %Y", "%A, %d %B %Y"] {
+            for t in ["%H:%M:%S", "%H:%M:%S.%f"] {
+                for glue in ["T", " "] {
+                    v.push(format!("{d}{glue}{t}%z"));
+                    v.push(format!("{d}{glue}{t} %z"));
+                    v.push(format!("{d}{glue}{t}%z %T"));
+                }
+            }
+        }
+        v
+    };
+    for rep in 0..(if thorough { 60 } else { 6 }) {
+        for (i, f) in zoned.iter().enumerate() {
+            let mut v = elapsed_4digit(rng, TimeScale::UTC);
+            if (i + rep) % 2 == 0 {
+                v = (v / NS_S as i128) * NS_S as i128;
+            }
+            m.eload_dur(TimeScale::UTC, ns_dur(v));
+            let mins = match (i + rep) % 5 {
+                0 => 0,
+                1 => -(1 + rng.below(59) as i128),
+                2 => rng.below(1440) as i128,
+                3 => -(rng.below(1440) as i128),
+                _ => *rng.pick(&[1439i128, -1439, 600, -600, 60, -60, 599, -601]),
+            };
+            let off = ns_dur(mins * 60 * NS_S as i128);
+            if let Some(s) = render_ev(&mut m, f, 1, off, TimeScale::UTC) {
+                fmt_parse_off_ev(&mut m, f, &s, off);
             }
         }
     }
